@@ -357,8 +357,9 @@ fn work_list(phase: usize, thorough: bool) -> (Vec<Vec<Op>>, Vec<Vec<Op>>, Vec<(
     let pre = prefixes();
     let hists = enumerate(depth, &ALPHABET);
     let mut work: Vec<(usize, usize)> = vec![];
-    for pi in 0..pre.len() {
-        for hi in 0..hists.len() {
+    // history-major order: a run that stops at its time budget has covered every start state equally far
+    for hi in 0..hists.len() {
+        for pi in 0..pre.len() {
             // non-initial start states: a quarter of the histories each in the quick tier
             if pi > 0 && !thorough && hi % 4 != pi % 4 {
                 continue;
